@@ -504,6 +504,79 @@ func runC19rest(c *Ctx) {
 	if nRet == 0 {
 		c.Bad("C19.4", FuncName(qv), "returns-kept-query", qv.Pos(), "no return found: shape changed")
 	}
+	// "the first message may come from an empty body" (the GET case) is allowed once: whoever
+	// prepares a message for sending through the re-encoding reader marks the first message as
+	// consumed, on every path - otherwise the reader meets the empty body again and lets the
+	// body preparer build the message from the query a second time (POST body = message twice)
+	{
+		trT := types.NewPointer(p.MustNamed("transformingReader"))
+		flagF := p.MustField("transformingReader", "consumedFirst")
+		prep := p.MethodOf(trT, "prepareMessage")
+		if prep == nil {
+			fatalf("anchor=transformingReader.prepareMessage not found")
+		}
+		setsFlag := func(in ssa.Instruction) bool {
+			st, ok := in.(*ssa.Store)
+			if !ok {
+				return false
+			}
+			fa, ok := st.Addr.(*ssa.FieldAddr)
+			if !ok || FieldOfAddr(fa) != flagF {
+				return false
+			}
+			b, isK := ConstBool(st.Val)
+			return isK && b
+		}
+		inPrep, _ := MustPassToExit(prep, nil, setsFlag, IsReturn, nil)
+		nSites := 0
+		for _, e := range p.Callers(prep) {
+			if e.Kind != "static" || !p.inScope(e.Caller) {
+				continue
+			}
+			nSites++
+			ok := inPrep
+			if !ok {
+				// the caller sets it on every path to the call
+				unguarded, _ := PathQuery{Target: func(in ssa.Instruction) bool { return in == ssa.Instruction(e.Site) }, Avoid: setsFlag}.Search(e.Caller, nil)
+				ok = !unguarded
+			}
+			c.Check(ok, "C19.4", FuncName(e.Caller), "first-message-consumed-once", e.Site.Pos(),
+				"preparing a message marks the first message as consumed (in the preparer or before the call)",
+				"a message is prepared for sending without marking the first message as consumed: when the body is empty (a GET that falls back to POST) the reader later accepts the empty body a second time and the backend receives the message twice in one body")
+		}
+		if nSites == 0 {
+			c.Bad("C19.4", FuncName(prep), "first-message-consumed-once", prep.Pos(), "the message preparer of the re-encoding reader is never called: shape changed")
+		}
+	}
+	// the GET client protocol - whose message lives in the query - reads it through the accessor only
+	{
+		getT := p.MustNamed("connectUnaryGetClientProtocol")
+		nM := 0
+		for _, fn := range p.Funcs {
+			top := fn
+			for top.Parent() != nil {
+				top = top.Parent()
+			}
+			if top.Signature.Recv() == nil || !types.Identical(top.Signature.Recv().Type(), getT) && !types.Identical(top.Signature.Recv().Type(), types.NewPointer(getT)) {
+				continue
+			}
+			nM++
+			var direct []string
+			for _, call := range Calls(fn) {
+				if IsCallTo(call, "(*net/url.URL).Query") {
+					direct = append(direct, p.Pos(call.Pos()))
+				}
+			}
+			if len(direct) > 0 || fn.Parent() == nil && len(Calls(fn)) > 0 {
+				c.Check(len(direct) == 0, "C19.4", FuncName(fn), "query-through-accessor", fn.Pos(),
+					"the GET protocol handler does not parse the URL's query itself",
+					"the GET protocol handler parses the request URL's query directly ("+joinStr(direct)+") instead of going through the operation's accessor: the parse is not kept, and a decode that happens after the URL was rewritten for the backend sees an empty query")
+			}
+		}
+		if nM == 0 {
+			c.Bad("C19.4", "connectUnaryGetClientProtocol", "query-through-accessor", token.NoPos, "the GET client protocol has no methods: shape changed")
+		}
+	}
 	// the kept cell is written only by the accessor and at construction from the classifier's parse
 	for _, fn := range p.Funcs {
 		for _, w := range FieldWrites(fn) {
